@@ -94,9 +94,21 @@ extern struct anon_f0db2cc371 _ZTVN4ikos17patricia_tree_setI1KE9subset_poE;
 /* element e is in the set denoted by root r: bound, to true */
 #define S_in(r, e) (M_has(r, e) && (M_val(r, e) & 1) != 0)
 #define S_sub(r1, r2) M_leq(r1, r2, VT_subset)
+/* operation objects of the set containers (handed to patricia_tree<K,bool>::merge_with) */
+typedef struct S_class_ikos__binary_op_59 BOPB;               /* binary_op<K,bool> */
+typedef struct S_class_ikos__patricia_tree_set_K___union_op OP_union;
+typedef struct S_class_ikos__patricia_tree_set_K___intersection_op OP_inter;
+extern struct anon_f0db2cc371 _ZTVN4ikos17patricia_tree_setI1KE8union_opE;
+extern struct anon_f0db2cc371 _ZTVN4ikos17patricia_tree_setI1KE15intersection_opE;
+#define VT_union ((void *)&_ZTVN4ikos17patricia_tree_setI1KE8union_opE.f0.a[2])
+#define VT_inter ((void *)&_ZTVN4ikos17patricia_tree_setI1KE15intersection_opE.f0.a[2])
+/* representation invariant of a set container at key e: a bound key is bound to TRUE (nothing ever stores false) */
+#define PS_INV_AT(r, e) (!M_has(r, e) || (M_val(r, e) & 1) != 0)
 /* discrete_domain: top = the set of ALL elements (flag), otherwise the finite set m_set; a top carries an empty set */
 static inline bool dd_ok(const DD *x){ return x->f0 <= 1 && (x->f0 == 0 || SROOT(x->f1) == 0); }
 static inline bool dd_top(const DD *x){ return x->f0 != 0; }
+/* element e is in the set a discrete_domain denotes: every element is in top */
+#define DD_in(x, e) (dd_top(x) || S_in(SROOT((x)->f1), e))
 /* ---- environments */
 static inline bool sd_ok(const SD *x){ return x->f0 <= 1; }
 static inline bool sd_bot(const SD *x){ return x->f0 != 0; }
